@@ -198,6 +198,8 @@ KEPT = {
     "nonzero": lambda x, a: x.nonzero(),
     "mean0": lambda x, a: x.mean(axis=0),
     "sum0": lambda x, a: x.sum(axis=0),
+    "where": lambda x, a: np.where(x > np.int64(a), x, x * np.int64(0)),
+    "add1": lambda x, a: x + np.int64(1),
 }
 
 
